@@ -29,16 +29,19 @@ for _p in ['C%02d' % i for i in range(1, 21)]:
     NOT_APPLICABLE.setdefault(_p, _NOT_YET)
 
 PROPS['C05'] = {
-    'units': ['tree'],
-    'level_text': ('Proof, for all token sequences of any length, that the parser accepts exactly the documented grammar and builds '
-                   'the unique tree it dictates (parser half of C05: token level). The tokenizer half is not yet under contract.'),
+    'units': ['tree', 'lex'],
+    'level_text': ('Proof, for all character sequences and all token sequences of any length, that (i) the tokenizer returns exactly the token '
+                   'sequence of the declarative token language of spec/lex.rs (maximal runs of name characters classified afterwards, whitespace '
+                   'anywhere, long and short operator spellings, wild-cards / domains only in extended mode) or an error, and (ii) the parser accepts '
+                   'exactly the documented grammar and builds the unique tree it dictates.'),
     'level_note': ('Trusted: Verus/Z3, vstd, mechanical extraction + logged rewrite rules, derive(Clone/PartialEq), Display tables, '
                    'the four index_of_first* helpers (Iterator::position). Formulae with fewer than 2^32 tokens.'),
     'explanation': ('Each level of the recursive-descent parser (parse_1_hybrid .. parse_9_terminal_and_parentheses, '
                     'parse_hctl_tokens) is proved, for every token sequence, to return Ok(tree) exactly when the grammar '
                     'function sp_* of spec/grammar.rs (written from the property statement) derives the sequence, with '
                     'view(tree) equal to the unique derivation; Err otherwise. Recursion is proved terminating.'),
-    'trusted': ['index_of_first, index_of_first_hybrid, index_of_first_binary_temp, index_of_first_unary (Iterator::position with a closure): assumed to return the first index whose token satisfies the predicate'],
+    'trusted': ['index_of_first, index_of_first_hybrid, index_of_first_binary_temp, index_of_first_unary (Iterator::position with a closure): assumed to return the first index whose token satisfies the predicate',
+                'prelude/lex_model.rs: Peekable<Chars> modelled as the ghost sequence of remaining characters (next / peek), char::is_alphanumeric = uninterpreted table with its ASCII part spelled out, R-strcat / R-collect / R-peekable / R-letchain / R-refpat rewrites'],
 }
 
 _OPS_TRUSTED = [
